@@ -176,14 +176,14 @@ package priority
 
 //@ func (*Discipline).resetTactic
 //@   requires [*] dsc != nil && dsc.tactic != nil
-//@   modifies content(dsc.tactic)
+//@   modifies [C01] content(dsc.tactic)
 //@   ensures [* C01 C15] msum(dsc.tactic) == 0 && (forall k :: dsc.tactic[k] == 0)
 //@   loop 0
 //@     invariant [*] forall k :: in($visited, k) ==> dsc.tactic[k] == 0
 
 //@ func (*Discipline).calcTacticByAddUpToStrategic
 //@   requires [*] WF(dsc)
-//@   modifies content(dsc.tactic)
+//@   modifies [C01] content(dsc.tactic)
 //@   ensures [* C01] result ==> msum(dsc.tactic) == vacants
 //@   ensures [C06] nothing-in-flight-means-the-shares-are-picked: (msum(dsc.actual) == 0 && vacants == gH && len(dsc.priorities) > 0) ==> result
 //@   loop 0
@@ -195,7 +195,7 @@ package priority
 //@ func (*Discipline).updateUncrowded
 //@   requires [*] WF(dsc)
 //@   ensures [*] WF(dsc)
-//@   modifies dsc.uncrowded, anyelems(dsc.uncrowded)
+//@   modifies [C01] dsc.uncrowded, anyelems(dsc.uncrowded)
 //@   ensures [* C15] strictlyDesc(dsc.uncrowded) && allIn(dsc.uncrowded, gPset)
 //@   ensures [*] dsc.uncrowded.arr == 0 || dsc.uncrowded.arr != dsc.priorities.arr
 //@   loop 0
@@ -207,7 +207,7 @@ package priority
 //@ func (*Discipline).updateUseful
 //@   requires [*] WF(dsc)
 //@   ensures [*] WF(dsc)
-//@   modifies dsc.useful, anyelems(dsc.useful)
+//@   modifies [C01] dsc.useful, anyelems(dsc.useful)
 //@   ensures [* C15] strictlyDesc(dsc.useful) && allIn(dsc.useful, gPset)
 //@   ensures [*] dsc.useful.arr == 0 || dsc.useful.arr != dsc.priorities.arr
 //@   loop 0
@@ -218,7 +218,7 @@ package priority
 //@ func (*Discipline).updateUsefulLikeUncrowded
 //@   requires [*] WF(dsc)
 //@   ensures [*] WF(dsc)
-//@   modifies dsc.useful, anyelems(dsc.useful)
+//@   modifies [C01] dsc.useful, anyelems(dsc.useful)
 //@   ensures [* C15] strictlyDesc(dsc.useful) && allIn(dsc.useful, gPset)
 //@   ensures [*] dsc.useful.arr == 0 || dsc.useful.arr != dsc.priorities.arr
 //@   loop 0
@@ -236,7 +236,7 @@ package priority
 //@   requires [*] WF(dsc)
 //@   ensures [*] WF(dsc)
 //@   requires [* C15] vacants <= gH
-//@   modifies content(dsc.tactic), dsc.uncrowded, anyelems(dsc.uncrowded), gDivErr
+//@   modifies [C01] content(dsc.tactic), dsc.uncrowded, anyelems(dsc.uncrowded), gDivErr
 //@   ensures [* C01] result1 == nil ==> (msum(dsc.tactic) == 0 || msum(dsc.tactic) == vacants)
 //@   ensures [C02 C07 C15] (gDivErr && !old(gDivErr)) ==> result1 == ErrDividerBad
 //@   ensures [C02 C07 C15] old(gDivErr) ==> gDivErr
@@ -248,7 +248,7 @@ package priority
 //@   requires [*] WF(dsc)
 //@   ensures [C06] nothing-in-flight-means-proceed: old(gInfl) == 0 ==> (result1 != nil || result0)
 //@   ensures [*] WF(dsc)
-//@   modifies content(dsc.tactic), dsc.uncrowded, anyelems(dsc.uncrowded), gDivErr
+//@   modifies [C01] content(dsc.tactic), dsc.uncrowded, anyelems(dsc.uncrowded), gDivErr
 //@   ensures [* C01] (result1 == nil && result0) ==> RINV(dsc)
 //@   ensures [C02 C07 C15] (gDivErr && !old(gDivErr)) ==> result1 == ErrDividerBad
 //@   ensures [C02 C07 C15] old(gDivErr) ==> gDivErr
@@ -265,7 +265,7 @@ package priority
 //@ func (*Discipline).recalcTactic
 //@   requires [*] WF(dsc)
 //@   requires [* C01] RINV(dsc)
-//@   modifies content(dsc.tactic), dsc.useful, anyelems(dsc.useful), gDivErr
+//@   modifies [C01] content(dsc.tactic), dsc.useful, anyelems(dsc.useful), gDivErr
 //@   ensures [*] WF(dsc)
 //@   ensures [* C01] result1 == nil ==> RINV(dsc)
 //@   ensures [C02 C07 C15] (gDivErr && !old(gDivErr)) ==> result1 == ErrDividerBad
@@ -473,7 +473,7 @@ package priority
 
 //@ func removePriority
 //@   requires [*] strictlyDesc(priorities)
-//@   modifies elems(priorities)
+//@   modifies [C17 C01] elems(priorities)
 //@   ensures [* C17] result.arr == priorities.arr && result.off == priorities.off && len(result) <= len(priorities) && cap(result) == cap(priorities)
 //@   ensures [* C17 C15] strictlyDesc(result)
 //@   ensures [* C17] removed-is-gone: forall a :: 0 <= a && a < len(result) ==> result[a] != removed
@@ -505,7 +505,7 @@ package priority
 //@ func (*Discipline).addPriority
 //@   requires [*] WFS(dsc)
 //@   requires [*] PLIST(dsc)
-//@   modifies content(dsc.inputs), dsc.priorities, anyelems(dsc.priorities)
+//@   modifies [C17 C01] content(dsc.inputs), dsc.priorities, anyelems(dsc.priorities)
 //@   ensures [*] WFS(dsc)
 //@   ensures [*] PLIST(dsc)
 //@   ensures [* C17] forall k :: dom(dsc.inputs, k) <==> (old(dom(dsc.inputs, k)) || k == priority)
@@ -518,7 +518,7 @@ package priority
 //@   requires [*] PLIST(dsc)
 //@   requires [*] len(dsc.priorities) == 0 && (forall k :: !dom(dsc.inputs, k)) && gPset == domset(inputs)
 //@   requires [C02 C07 C15] !gDivErr
-//@   modifies content(dsc.inputs), dsc.priorities, anyelems(dsc.priorities), dsc.strategic, gPerm, gInv, gDivErr
+//@   modifies [C17 C01] content(dsc.inputs), dsc.priorities, anyelems(dsc.priorities), dsc.strategic, gPerm, gInv, gDivErr
 //@   ensures [*] WF(dsc)
 //@   ensures [* C02 C07] forall k :: dom(dsc.inputs, k) ==> !dsc.inputs[k].Drained
 //@   ensures [C02 C07 C15] !gDivErr
@@ -536,7 +536,7 @@ package priority
 //@   requires [*] forall k :: in(gPset, k) <==> (dom(dsc.inputs, k) || k == priority)
 //@   requires [C02 C07] forall k :: (k != priority && dom(dsc.inputs, k) && dsc.inputs[k].Drained) ==> in(gClosedIn, k)
 //@   requires [C02 C07] !in(gClosedIn, priority)
-//@   modifies content(dsc.inputs), dsc.priorities, anyelems(dsc.priorities), dsc.strategic, gPerm, gInv, gDivErr
+//@   modifies [C17 C01] content(dsc.inputs), dsc.priorities, anyelems(dsc.priorities), dsc.strategic, gPerm, gInv, gDivErr
 //@   ensures [*] WF(dsc)
 //@   ensures [C17] added-channel-is-registered-under-priority: dsc.inputs[priority].Channel == channel && !dsc.inputs[priority].Drained && in(gPset, priority)
 //@   ensures [C17 C01] in-flight-accounting-untouched: forall k :: dsc.actual[k] == old(dsc.actual[k])
@@ -551,7 +551,7 @@ package priority
 //@   requires [*] PLIST(dsc)
 //@   requires [*] forall k :: in(gPset, k) <==> (dom(dsc.inputs, k) && k != priority)
 //@   requires [C02 C07] DRAINED(dsc)
-//@   modifies content(dsc.inputs), content(dsc.tactic), dsc.priorities, anyelems(dsc.priorities), dsc.strategic, gDivErr
+//@   modifies [C17 C01] content(dsc.inputs), content(dsc.tactic), dsc.priorities, anyelems(dsc.priorities), dsc.strategic, gDivErr
 //@   ensures [*] WF(dsc)
 //@   ensures [C17] removed-input-is-never-read-again: !dom(dsc.inputs, priority) && !in(gPset, priority)
 //@   ensures [C17 C01] in-flight-accounting-untouched: forall k :: dsc.actual[k] == old(dsc.actual[k])
